@@ -315,8 +315,11 @@ theorem head_proof_index_no_panic (n : Nat) (j : Int) : (headProofIndex n j).isP
   unfold headProofIndex
   repeat (first | rfl | split)
 
-/-- T16. VoteGauge weights: any list of any strings. -/
-theorem head_vote_gauge_no_panic (ok : Bool) (ws : List String) (t : Int) : (headVoteGauge ok ws t).isPanic = false := by
+/-- T16. VoteGauge weights: any list of any strings; the running total stays below the number of weights, so the
+    range-asserting `Add` cannot fire for any message that fits in a block (fewer than 2^190 weights). -/
+theorem head_vote_gauge_no_panic (ok : Bool) (ws : List String) (t : Int)
+    (h0 : 0 ≤ t) (hb : t + (ws.length : Int) * 10 ^ 18 < 2 ^ 256 * 10 ^ 18) :
+    (headVoteGauge ok ws t).isPanic = false := by
   induction ws generalizing t with
   | nil => unfold headVoteGauge; repeat (first | rfl | split)
   | cons w ws ih =>
@@ -324,9 +327,24 @@ theorem head_vote_gauge_no_panic (ok : Bool) (ws : List String) (t : Int) : (hea
     split; rfl
     split
     · rfl
-    · split
+    · rename_i v _
+      split
       · rfl
-      · exact ih _
+      · split
+        · rfl
+        · rename_i hv0 hv1
+          have hlen : ((w :: ws).length : Int) = (ws.length : Int) + 1 := by simp
+          rw [hlen] at hb
+          have hadd : decAdd t v = .ok (t + v) := by
+            unfold decAdd
+            have : (t + v).natAbs < 2 ^ 256 * 10 ^ 18 := by
+              omega
+            simp [this]
+          rw [hadd]
+          simp only
+          apply ih
+          · omega
+          · omega
 
 theorem head_create_pool_no_panic (a b c : Bool) (f r o : Option Int) : (headCreatePool a b c f r o).isPanic = false := by
   unfold headCreatePool
